@@ -49,6 +49,30 @@ func faultedRekey(run *vh.Run, e *wl.Env) {
 	}()
 	fired := fdb.Fired
 	fdb.Disarm()
+	if kind == "write" || kind == "commit" {
+		// the process lives on after a failed write or commit: the operator locks the wallet - and a locked wallet
+		// holds no key-decrypting key and no passphrase hash, whatever the interrupted change left behind
+		w.M.Lock()
+		_, views := w.M.VerifInspect()
+		run.Count("locks_inspected_after_faulted_passphrase_change", 1)
+		for _, v := range views {
+			var zero [64]byte
+			field := ""
+			switch {
+			case v.MasterKeyPrivValid:
+				field = "valid-key-decrypting-key"
+			case v.Unlocked || len(v.AddrPrivKeys) > 0 || v.AcctKeyPriv || v.ExternalBranchPriv || v.InternalBranchPriv:
+				field = "private-key"
+			case v.HashedPrivPassphrase != zero:
+				field = "passphrase-hash"
+			}
+			if field != "" {
+				e.Trace = append(e.Trace, fmt.Sprintf("ChangePrivPassphrase over a fault-injecting store (%s #%d, fired=%v) -> %v; Lock()", kind, at, fired, cerr))
+				e.Report([]string{"C03"}, "secret-in-memory-while-locked", map[string]string{"after": "lock-after-faulted-passphrase-change", "field": field, "locked_before_op": "true"}, map[string]interface{}{"keystore": v.Name, "fault": kind, "at": at})
+				break
+			}
+		}
+	}
 	w.Close()
 	w2, err := wl.Open(dir, m.Pub, nil)
 	if err != nil {
